@@ -78,7 +78,16 @@ func setupTime(fx *vfixture, tm *TimeIn, vc vcase) {
 			return tsaGood().token(append([]byte("other:"), sig...), at(cs.T), cs.Acc*unit)
 		}
 	case "untrusted":
-		fx.tsToken = func(sig []byte) []byte { return tsaOther().token(sig, at(cs.T), cs.Acc*unit) }
+		// the token's TSA does not chain to the policy's tsa store: another TSA's token against the usual store, or the usual
+		// TSA's token against a store that (in this case) holds another root only
+		if vc.sigMut%2 == 0 {
+			fx.tsToken = func(sig []byte) []byte { return tsaOther().token(sig, at(cs.T), cs.Acc*unit) }
+		} else {
+			if tm.TSAListed {
+				fx.store.put(truststore.TypeTSA, "t1", tsaOther().chain.Root())
+			}
+			fx.tsToken = func(sig []byte) []byte { return tsaGood().token(sig, at(cs.T), cs.Acc*unit) }
+		}
 	case "misPurposed":
 		// chains to the trusted TSA root? no: its own root, which IS listed, so that only the purpose is wrong
 		fx.store.put(truststore.TypeTSA, "t1", tsaGood().chain.Root(), tsaMisPurposed().chain.Root())
